@@ -1,4 +1,115 @@
-import OPModel.Model.Curves
+/-
+  C17 — Curve simplification stays within its tolerance.
+
+  `rdp` (Model/Curves.lean) is the code-shaped model of `_rdp` (explicit stack ranges as a
+  recursion, first-maximum scan with strict `>`, the `continue` on a zero-length chord); it is
+  tied to the code on the kept indices by harness/opv/props/c17.py.  `cleanCurve` models
+  `clean_composite_curve`.
+
+  Proved here for every polyline of any length and every tolerance:
+    * `rdp` keeps both end points, returns indices in strictly increasing (= original) order,
+      and between two neighbouring kept points every original point is within `eps` of the chord
+      (squared form, no square root); for a point lying coordinatewise between the chord ends —
+      every point of a monotone profile does — that is a bound on the distance from the chord
+      *segment*, i.e. from the simplified polyline;
+    * `cleanCurve` returns a sub-list of the original points.
+  NOT true of the code (and so not a theorem): that `clean_composite_curve` keeps every original
+  point within 1e-6 of the kept polyline — `clean_drift_witness` is a kernel-checked counterexample
+  on the model, replayed on the implementation from corpus/C17 (known finding); and the one-sided
+  bound of `get_piecewise_data_points`, which the SLSQP refinement (not modelled: a numerical
+  optimiser) is meant to provide and the plain-RDP path never enforces (known findings).
+-/
+import OPModel.Proofs.CurveLemmas
+import OPModel.Drive.C17
+
 namespace OP.C17
-theorem placeholder : True := trivial
+open OP
+
+/-- **Both end points are kept** (two or more points). -/
+theorem rdp_ends (pts : Array P2) (eps : Rat) (h : 2 ≤ pts.size) :
+    (rdp pts eps).head? = some 0 ∧ (rdp pts eps).getLast? = some (pts.size - 1) := by
+  unfold rdp
+  rw [if_neg (by omega), if_neg (by omega)]
+  constructor
+  · simp
+  · simp only [List.cons_append, List.nil_append]
+    rw [← List.cons_append, List.getLast?_concat]
+
+/-- **Neighbouring kept points cover everything between them.**  The output is a chain in which
+    each kept index is followed by a larger one, and every original point strictly between two
+    neighbours `a`, `b` satisfies `cross² ≤ eps²·|b−a|²` — it is within `eps` of their chord. -/
+theorem rdp_chain (pts : Array P2) (eps : Rat) (h : 2 ≤ pts.size) :
+    List.IsChain (Cov pts eps) (rdp pts eps) := by
+  unfold rdp
+  rw [if_neg (by omega), if_neg (by omega)]
+  have := rdpRange_chain pts eps pts.size 0 (pts.size - 1) (by omega) (by omega)
+  simpa using this
+
+/-- **Original order**: the kept indices are strictly increasing. -/
+theorem rdp_sorted (pts : Array P2) (eps : Rat) (h : 2 ≤ pts.size) :
+    (rdp pts eps).Pairwise (· < ·) := by
+  have hc := (rdp_chain pts eps h).imp (S := (· < ·)) (fun _ _ hab => hab.1)
+  exact List.isChain_iff_pairwise.mp hc
+
+/-- **Within the deviation of the simplified polyline.**  If `a`, `b` are neighbours in the output
+    and the original point `i` between them lies coordinatewise between `pts[a]` and `pts[b]`
+    (true for every point of a profile monotone in h and T), then some point of the segment
+    `pts[a]`–`pts[b]` is within `eps` of `pts[i]` (squared Euclidean distance ≤ eps²). -/
+theorem rdp_within_segment (pts : Array P2) (eps : Rat) (a b i : Nat) (hab : Cov pts eps a b)
+    (hai : a < i) (hib : i < b)
+    (hx : (pts[a]!.1 ≤ pts[i]!.1 ∧ pts[i]!.1 ≤ pts[b]!.1) ∨ (pts[b]!.1 ≤ pts[i]!.1 ∧ pts[i]!.1 ≤ pts[a]!.1))
+    (hy : (pts[a]!.2 ≤ pts[i]!.2 ∧ pts[i]!.2 ≤ pts[b]!.2) ∨ (pts[b]!.2 ≤ pts[i]!.2 ∧ pts[i]!.2 ≤ pts[a]!.2)) :
+    ∃ t : Rat, 0 ≤ t ∧ t ≤ 1 ∧
+      (pts[i]!.1 - (pts[a]!.1 + t * (pts[b]!.1 - pts[a]!.1))) * (pts[i]!.1 - (pts[a]!.1 + t * (pts[b]!.1 - pts[a]!.1))) +
+      (pts[i]!.2 - (pts[a]!.2 + t * (pts[b]!.2 - pts[a]!.2))) * (pts[i]!.2 - (pts[a]!.2 + t * (pts[b]!.2 - pts[a]!.2)))
+        ≤ eps * eps := by
+  by_cases hl : len2 pts[a]! pts[b]! = 0
+  · -- the chord ends coincide, so the point between them coincides with both
+    have h1 : (pts[b]!.1 - pts[a]!.1) * (pts[b]!.1 - pts[a]!.1) = 0 ∧ (pts[b]!.2 - pts[a]!.2) * (pts[b]!.2 - pts[a]!.2) = 0 := by
+      unfold len2 at hl
+      have n1 := mul_self_nonneg (pts[b]!.1 - pts[a]!.1)
+      have n2 := mul_self_nonneg (pts[b]!.2 - pts[a]!.2)
+      constructor <;> linarith
+    have ex : pts[b]!.1 = pts[a]!.1 := by have := mul_self_eq_zero.mp h1.1; linarith
+    have ey : pts[b]!.2 = pts[a]!.2 := by have := mul_self_eq_zero.mp h1.2; linarith
+    have px : pts[i]!.1 = pts[a]!.1 := by rcases hx with ⟨u, v⟩ | ⟨u, v⟩ <;> linarith
+    have py : pts[i]!.2 = pts[a]!.2 := by rcases hy with ⟨u, v⟩ | ⟨u, v⟩ <;> linarith
+    refine ⟨0, le_refl _, by norm_num, ?_⟩
+    rw [px, py]
+    have : (pts[a]!.1 - (pts[a]!.1 + 0 * (pts[b]!.1 - pts[a]!.1))) * (pts[a]!.1 - (pts[a]!.1 + 0 * (pts[b]!.1 - pts[a]!.1))) +
+      (pts[a]!.2 - (pts[a]!.2 + 0 * (pts[b]!.2 - pts[a]!.2))) * (pts[a]!.2 - (pts[a]!.2 + 0 * (pts[b]!.2 - pts[a]!.2))) = 0 := by ring
+    rw [this]; exact mul_self_nonneg eps
+  · exact within_segment pts[a]! pts[b]! pts[i]! eps hx hy hl (hab.2 i hai hib)
+
+/-- **Cleaning only removes points**: whatever `clean_composite_curve` returns is a sub-list of
+    the original `(x, y)` points, in the original order. -/
+theorem clean_sublist (tol : Rat) (y x : List Rat) (out : List (Rat × Rat))
+    (h : cleanCurve tol y x = .ok out) : out.Sublist (x.zip y) :=
+  cleanCurve_sublist tol y x out h
+
+/-- **Counterexample (model level) to "never moves the curve by more than 1e-6".**  A slowly bending
+    run: each interior point is within 1e-6 (vertically) of the chord of its two original
+    neighbours, so all are removed, but the middle one is 8.1e-6 from the chord that remains. -/
+theorem clean_drift_witness :
+    cleanCurve (1 / 1000000) [390, 370, 350, 330, 310, 290, 270]
+      [500, 700 + 9 / 1000000, 900 + 36 / 1000000, 1100 + 81 / 1000000, 1300 + 144 / 1000000,
+       1500 + 225 / 1000000, 1700 + 324 / 1000000]
+      = .ok [(500, 390), (1700 + 324 / 1000000, 270)] ∧
+    (1 : Rat) / 1000000 <
+      rabs (330 - (390 + (270 - 390) * ((1100 + 81 / 1000000) - 500) / ((1700 + 324 / 1000000) - 500))) := by
+  decide +kernel
+
+/-! ### non-vacuity -/
+
+/-- A kinked profile: the kink is kept, the collinear points are dropped. -/
+example : rdp #[(0, 0), (10, 1), (20, 2), (30, 30), (40, 31)] (1 / 2) = [0, 2, 3, 4] := by decide +kernel
+
+example : Cov #[(0, 0), (10, 1), (20, 2), (30, 30), (40, 31)] (1 / 2) 0 2 := by
+  refine ⟨by omega, ?_⟩
+  intro i h1 h2
+  have : i = 1 := by omega
+  subst this
+  unfold Within
+  decide +kernel
+
 end OP.C17
